@@ -32,6 +32,62 @@ def dstOf : GVal → Option Addr
   | .addr a => some a
   | _ => none
 
+/-! ### keyed store reads: the oracle FUNCTIONS of a translated handler, in state `s`.
+    A translated `k.Auction.Get(ctx, key)` is `auctionGet__ key`: the value depends on the key
+    the CODE passes, so a handler that reads under another key reads another record (or
+    nothing), and its tie theorem no longer holds. -/
+
+/-- the view filed under auction id `k` (`Auction`, `Bid`, `AllowedBidder`, `VestingQueue`,
+    `MatchedBidsLen` and `BidSeq` are all keyed by, or prefixed with, the auction id) -/
+def viewAt (s : Core) (k : Int) : Option AView := if 0 ≤ k then s.views[k.toNat]? else none
+
+@[simp] theorem viewAt_nat (s : Core) (aid : Nat) : viewAt s (aid : Int) = s.views[aid]? := by
+  simp [viewAt]
+
+/-- `k.Auction.Get(ctx, id)` -/
+def rdAuction (s : Core) (k : Int) : Auction × Bool :=
+  match viewAt s k with
+  | some v => (v.a, false)
+  | none => (default, true)
+
+/-- `k.AllowedBidder.Get(ctx, Join(id, bidder))` -/
+def rdAllowed (s : Core) (k : Int) (u : Acc) : Allowed × Bool :=
+  match viewAt s k with
+  | some v => ((lookupAllowed v.allowed u).getD default, (lookupAllowed v.allowed u).isNone)
+  | none => (default, true)
+
+/-- `k.Bid.Get(ctx, Join(id, bidId))` -/
+def rdBid (s : Core) (k i : Int) : Bid × Bool :=
+  match viewAt s k with
+  | some v => ((v.bids.find? (fun b => decide ((b.id : Int) = i))).getD default,
+               (v.bids.find? (fun b => decide ((b.id : Int) = i))).isNone)
+  | none => (default, true)
+
+/-- `k.GetBidsByBidder(ctx, bidder)`: the bidder's bids of ALL auctions, in store order -/
+def rdBidsByBidder (s : Core) (u : Acc) : List Bid :=
+  (s.views.flatMap (·.bids)).filter (·.bidder == u)
+
+/-- `k.GetNextBidIdWithUpdate(ctx, id)`: the value returned (the write is the recorded effect) -/
+def rdNextBidId (s : Core) (k : Int) : Int :=
+  match viewAt s k with
+  | some v => ((v.bidSeq + 1 : Nat) : Int)
+  | none => 1
+
+/-- `k.GetLastMatchedBidsLen(ctx, id)` -/
+def rdMatchedLen (s : Core) (k : Int) : Int :=
+  match viewAt s k with
+  | some v => (v.matchedLen : Int)
+  | none => 0
+
+/-- `k.GetVestingQueuesByAuctionId(ctx, id)` -/
+def rdVqs (s : Core) (k : Int) : List VQ := ((viewAt s k).map (·.vqs)).getD []
+
+/-- `k.GetBidsByAuctionId(ctx, id)` -/
+def rdBids (s : Core) (k : Int) : List Bid := ((viewAt s k).map (·.bids)).getD []
+
+/-- `k.GetAllowedBiddersByAuction(ctx, id)` -/
+def rdAllowedList (s : Core) (k : Int) : List Allowed := ((viewAt s k).map (·.allowed)).getD []
+
 /-- one recorded call of a MESSAGE handler / keeper-API function, on the context and the
     working copy of the view of the auction the operation concerns -/
 def applyEff (e : GEff) (c : Ctx) (v : AView) : M (Ctx × AView) :=
@@ -57,11 +113,19 @@ def applyEff (e : GEff) (c : Ctx) (v : AView) : M (Ctx × AView) :=
       let coins ← mkCoins c cn.denom cn.amt
       let c ← c.bankCall .send src d coins
       pure (c, v)
-  | .nextBidId, [.int _] => pure (c, { v with bidSeq := v.bidSeq + 1 })
-  | .auctionSet, [.int _, .auction a] => pure (c, { v with a := a })
-  | .bidSet, [.int _, .int _, .bid b] => pure (c, { v with bids := setBid v.bids b })
-  | .allowedSet, [.int _, .nat _, .allowed1 ab] => pure (c, { v with allowed := setAllowedArg v.allowed ab })
-  | .vqSet, [.int _, .int _, .vq q] => pure (c, { v with vqs := setVQ v.vqs q })
+  -- store writes: the KEY the code passes must be the key the model files the record under —
+  -- the auction this operation concerns, and the record's own id / bidder / release time.
+  -- A write under any other key has no counterpart in the model: the plan does not run.
+  | .nextBidId, [.int k] =>
+    if k = (v.a.id : Int) then pure (c, { v with bidSeq := v.bidSeq + 1 }) else c.fail .panic
+  | .auctionSet, [.int k, .auction a] =>
+    if k = (v.a.id : Int) ∧ a.id = v.a.id then pure (c, { v with a := a }) else c.fail .panic
+  | .bidSet, [.int k, .int i, .bid b] =>
+    if k = (v.a.id : Int) ∧ i = (b.id : Int) then pure (c, { v with bids := setBid v.bids b }) else c.fail .panic
+  | .allowedSet, [.int k, .nat u, .allowed1 ab] =>
+    if k = (v.a.id : Int) ∧ u = ab.bidder then pure (c, { v with allowed := setAllowedArg v.allowed ab }) else c.fail .panic
+  | .vqSet, [.int k, .int r, .vq q] =>
+    if k = (v.a.id : Int) ∧ r = q.release then pure (c, { v with vqs := setVQ v.vqs q }) else c.fail .panic
   | .beforeBidPlaced, [.int a, .int i, .nat u, .bidType t, .int p, .coin cn] => do
     let c ← c.hook "BeforeBidPlaced" [rNat a.toNat, rNat i.toNat, rAcc u, rBidType t, rInt p, rNat cn.denom, rInt cn.amt]
     pure (c, v)
@@ -106,9 +170,18 @@ def runPlan (c : Ctx) (aid : Nat) (v : AView) (plan : Bool × List GEff) : M Ctx
   let (c, v) ← runEffs plan.2 c v
   if plan.1 then c.fail else pure (c.setView aid v)
 
+/-- … against the store: the working view is the one filed under `aid`; a plan that is
+    accepted although no auction is filed under `aid` has no counterpart in the model -/
+def runPlanAt (c : Ctx) (aid : Nat) (plan : Bool × List GEff) : M Ctx :=
+  match c.s.views[aid]? with
+  | some v => runPlan c aid v plan
+  | none => if plan.1 then c.fail else c.fail .panic
+
 /-- the same for an operation that CREATES the auction: the working view is appended -/
 def runPlanNew (c : Ctx) (v : AView) (plan : Bool × List GEff) : M Ctx := do
-  let (c, v) ← runEffs plan.2 c v
+  -- the working view is the one filed under the next free auction id: a write of the new
+  -- record under any other key is rejected by `applyEff`
+  let (c, v) ← runEffs plan.2 c { v with a := { v.a with id := c.s.views.length } }
   if plan.1 then c.fail else pure { c with s := { c.s with views := c.s.views ++ [v] } }
 
 /-! ### settlement: the functions `BeginBlocker` reaches call each other; a recorded call of
@@ -117,12 +190,16 @@ def runPlanNew (c : Ctx) (v : AView) (plan : Bool × List GEff) : M Ctx := do
 
 def applySettle (aid : Nat) (e : GEff) (c : Ctx) : M Ctx :=
   match e.name, e.args with
-  | .auctionSet, [.int _, .auction a] => do
-    let v ← c.view aid
-    pure (c.setView aid { v with a := a })
-  | .vqSet, [.int _, .int _, .vq q] => do
-    let v ← c.view aid
-    pure (c.setView aid { v with vqs := setVQ v.vqs q })
+  | .auctionSet, [.int k, .auction a] =>
+    if k = (aid : Int) ∧ a.id = aid then do
+      let v ← c.view aid
+      pure (c.setView aid { v with a := a })
+    else c.fail .panic
+  | .vqSet, [.int k, .int r, .vq q] =>
+    if k = (aid : Int) ∧ r = q.release then do
+      let v ← c.view aid
+      pure (c.setView aid { v with vqs := setVQ v.vqs q })
+    else c.fail .panic
   | .sendCoins, [.addr src, dst, .coin cn] =>
     match dstOf dst with
     | none => c.fail .panic
@@ -166,6 +243,28 @@ def runSettlePlan (c : Ctx) (aid : Nat) (plan : Bool × List GEff) : M Ctx := do
 @[simp] theorem runEffs_nil (c : Ctx) (v : AView) : runEffs [] c v = pure (c, v) := rfl
 @[simp] theorem runEffs_cons (e : GEff) (es : List GEff) (c : Ctx) (v : AView) :
     runEffs (e :: es) c v = (applyEff e c v >>= fun p => runEffs es p.1 p.2) := rfl
+
+/-- the working view stays the view of the same auction: `applyEff` accepts an `auctionSet`
+    only for a record carrying the id of the view it is applied to -/
+theorem applyEff_id (e : GEff) (c : Ctx) (v : AView) (c' : Ctx) (v' : AView)
+    (h : applyEff e c v = .ok (c', v')) : v'.a.id = v.a.id := by
+  unfold applyEff at h
+  split at h <;> (try split at h) <;>
+    simp_all [bind, Except.bind, pure, Except.pure, Ctx.fail] <;>
+    (try (repeat' (split at h <;> simp_all))) <;> grind
+
+theorem runEffs_id (es : List GEff) (c : Ctx) (v : AView) (c' : Ctx) (v' : AView)
+    (h : runEffs es c v = .ok (c', v')) : v'.a.id = v.a.id := by
+  induction es generalizing c v with
+  | nil => simp [runEffs, pure, Except.pure] at h; rw [h.2]
+  | cons e es ih =>
+    simp only [runEffs_cons, bind, Except.bind] at h
+    cases he : applyEff e c v with
+    | error x => simp [he] at h
+    | ok p =>
+      simp only [he] at h
+      rw [ih p.1 p.2 h]
+      exact applyEff_id e c v p.1 p.2 (by simpa using he)
 
 end Go
 end Fundraising
